@@ -16,6 +16,7 @@ IN_EVENTS = ['Claim', 'Release', 'Start', 'Stop', 'get', 'Bye', 'E2']
 OUT_EVENTS = ['Ok', 'Fail', 'Done', 'evt', 'Tick']
 FORMALS = ['a', 'b', 'c', 'val', 'p1']
 PORT_NAMES = ['api', 'aux', 'cord', 'led', 'p', 'q2', 'x']
+PREFER_SHORT = False        # spell(): take the shortest uniquely resolving spelling
 
 
 def chain(name, scope):
@@ -34,6 +35,8 @@ def spell(rng, decls, fqn, scope, kind):
     good = [c for c in cands if [d for d in resolve(decls, c, scope)] == [(kind, fqn)]]
     if not good:
         return None          # this library has no shadowing: some targets cannot be named uniquely
+    if PREFER_SHORT:
+        return good[0]
     return rng.choice(good)
 
 
@@ -41,6 +44,11 @@ def pick(rng, decls, targets, scope, kind, key=lambda t: t[0]):
     """choose a target that can be spelled uniquely from `scope`; returns (target, spelling) or None"""
     ts = list(targets)
     rng.shuffle(ts)
+    if PREFER_SHORT:
+        # the target with the shortest unique spelling (ties in shuffled order)
+        sps = [(t, spell(rng, decls, key(t), scope, kind)) for t in ts]
+        sps = [(t, sp) for t, sp in sps if sp is not None]
+        return min(sps, key=lambda x: len(x[1])) if sps else None
     for t in ts:
         sp = spell(rng, decls, key(t), scope, kind)
         if sp is not None:
@@ -174,6 +182,53 @@ def gen_model(rng, want_mc=False):
     info = {'decls': decls, 'comp_fqn': cns + [cname], 'comp_ns': cns, 'ports': ports, 'interfaces': interfaces,
             'externs': externs, 'enums': enums}
     return elems, info
+
+
+def gen_same_spelling_prog(rng):
+    """a buildable, compilable case in which one short spelling `T` denotes a different extern (with a
+    different C++ type) in each of 2-3 sibling namespaces; each namespace has an interface whose event
+    formals are typed `T`; the component exposes one port per interface, all rerouted (MTS)"""
+    scopes = rng.sample([['A'], ['B'], ['C'], ['D', 'E']], rng.randint(2, 3))   # no scope encloses another
+    ctypes = rng.sample(['int', 'long', '::vt::Ext<1>', '::vt::Ext<2>'], len(scopes))
+    if rng.random() < 0.5:
+        # mutually convertible types: a mix-up still compiles and shows only in the values
+        ctypes = rng.sample(['int', 'long'], 2) + ctypes[2:]
+    decls, externs, interfaces, items = [], [], [], []
+    for k, (sc, ct) in enumerate(zip(scopes, ctypes)):
+        decls.append(('extern', sc + ['T']))
+        externs.append((sc + ['T'], ct))
+        items.append((sc, {'k': 'extern', 'name': ['T'], 'value': ct}))
+        events = []
+        for j in range(rng.randint(2, 4)):
+            d = rng.choice(['in', 'in', 'out'])
+            fs = [{'name': 'a%d' % i, 'type': ['T'], 'dir': 'in' if d == 'out' else rng.choice(['in', 'in', 'out', 'inout']),
+                   '_ext': sc + ['T'], '_ctype': ct} for i in range(rng.randint(1, 2))]
+            events.append({'name': ('ev%d' if d == 'in' else 'sig%d') % j, 'reply': ['void'], 'formals': fs, 'dir': d,
+                           '_reply': {'kind': 'void'}})
+        fq = sc + ['I%d' % k]
+        decls.append(('interface', fq))
+        itf = {'fq': fq, 'events': events, 'local_enums': []}
+        interfaces.append(itf)
+        items.append((sc, {'k': 'interface', 'name': ['I%d' % k], 'types': [], 'events': events}))
+    ports = [{'name': 'p%d' % k, 'type': list(itf['fq']), 'dir': 'provides' if k == 0 else rng.choice(['provides', 'requires']),
+              'formals': [], 'injected': False, '_itf': itf['fq']} for k, itf in enumerate(interfaces)]
+    decls.append(('component', ['Z', 'Comp']))
+    items.append((['Z'], {'k': 'component', 'name': ['Comp'], 'ports': ports}))
+    rng.shuffle(items)
+    elems = []
+    for ns, el in items:
+        node = el
+        for part in reversed(ns):
+            node = {'k': 'namespace', 'name': [part], 'elems': [node]}
+        elems.append(node)
+    info = {'decls': decls, 'comp_fqn': ['Z', 'Comp'], 'comp_ns': ['Z'], 'ports': ports, 'interfaces': interfaces,
+            'externs': externs, 'enums': []}
+    cfg = {'filename': 'Model.dzn', 'suffix': 'AdvShell', 'encapsulee': ['Z', 'Comp'],
+           'ports': {'psts': {'w': 'none'}, 'pmts': {'w': 'all'}, 'rsts': {'w': 'none'}, 'rmts': {'w': 'all'}},
+           'multiclient': None, 'origin': rng.choice(['create', 'import']), 'copyright': 'c', 'prefix': None,
+           'creator': None}
+    return {'op': 'build', 'src': strip_private(elems), 'ast': M.enc_root(strip_private(elems)), 'cfg': cfg,
+            'expect': 'ok', '_info': info}
 
 
 def strip_private(x):
